@@ -262,7 +262,7 @@ def check_dump(ctx, kind, c, pdesc, p, p_inst, dform_name, zl):
         got = dn * 86400 + tod - zoff * 60
         tol = 0 if exact else Fraction({"fh": 3600, "fm": 60, "fs": 1}[f["frac_of"]], 1000000)
         if abs(got - p_inst) > tol:
-            ctx.violation("dump_instant", sig, case, {"instant": str(p_inst)}, {"text": text, "instant": str(got)})
+            ctx.violation("dump_instant", sig, case, {"instant": str(p_inst)}, {"text": text, "instant": impl.sstr(got)})
         ctx.outcome("dump_day_shift", dn - c.dn_from(pdesc["rep"], pdesc["f"]))
 
 
